@@ -138,6 +138,7 @@ type blockOps struct {
 }
 
 type lockHist struct {
+	overBound *common.Address // a token whose weight was just made huge: the next block locks 2^96 of it (over the power bound)
 	split *splitLock // directed scenario in progress: power granted in pieces, taken back in one go
 	memberVal bool // a validator with a relayer voter's key has been created
 	c         *vc.Ctx
@@ -422,6 +423,21 @@ func (h *lockHist) gen() *blockOps {
 			h.split = nil
 		}
 	}
+	if ob := h.overBound; ob != nil && w.Lock > 0 && h.post != nil {
+		h.overBound = nil
+		if t := h.token(h.post, *ob); t != nil && t.Weight >= 1_000_000 {
+			// a lock batch in which one validator's lock would take it over the power bound (2^96 of a token of huge weight)
+			// while another validator's ordinary lock is fine: whatever the chain does with such a batch, no funds may vanish
+			va, vb := h.pickVal(true), h.pickVal(true)
+			big96 := new(big.Int).Lsh(big.NewInt(1), 96)
+			l1 := &goattypes.LockRequest{Validator: h.vals[va].Addr, Token: *ob, Amount: big96}
+			l2 := &goattypes.LockRequest{Validator: h.vals[vb].Addr, Token: tokBTC, Amount: pow10(18)}
+			o.Reqs.Locking.Locks = append(o.Reqs.Locking.Locks, l2, l1)
+			o.locks = append(o.locks, l2, l1)
+			o.Desc = append(o.Desc, fmt.Sprintf("lock v%d btc 1e18, lock v%d %s 2^96 (over the power bound)", vb, va, denomOf(*ob)))
+			h.c.Count("lock_batches_over_the_power_bound", 1)
+		}
+	}
 	if roll(w.Lock) {
 		n := 1 + h.r.Intn(4)
 		for i := 0; i < n; i++ {
@@ -539,6 +555,8 @@ func (h *lockHist) gen() *blockOps {
 		wt := []uint64{0, 1, 2, 3, 5, 7}[h.r.Intn(6)]
 		if h.cfg.HugeWeights && h.r.Intn(3) == 0 {
 			wt = []uint64{1_000_000, 1_000_000_000, 1 << 32, 1 << 40, 1 << 62}[h.r.Intn(5)]
+			t := tok
+			h.overBound = &t
 		}
 		if tok == tokBTC && h.cfg.Protect0 && wt == 0 {
 			wt = 1
